@@ -258,7 +258,7 @@ func (d *DeviceRemote) CheckEntityInformation(initialData bool, entity model.Nod
 		return errors.New("nodemanagement.replyDetailedDiscoveryData: invalid EntityInformation.Description.EntityAddress")
 	}
 
-	if description.EntityAddress.Entity == nil {
+	if len(description.EntityAddress.Entity) == 0 {
 		return errors.New("nodemanagement.replyDetailedDiscoveryData: invalid EntityInformation.Description.EntityAddress.Entity")
 	}
 
